@@ -493,6 +493,11 @@ pub fn build(m: &Model) -> Vec<u8> {
         // minidump-synth leaves an empty list out; a present-but-empty thread list is the case wanted
         d = d.add_stream(synth::SimpleStream { stream_type: md::MINIDUMP_STREAM_TYPE::ThreadListStream as u32, section: Section::with_endian(e).D32(0) });
     }
+    if !m.thread_names.is_empty() {
+        // the first entry of the stream names no thread of the list and cannot be read (its string RVA is 0): it
+        // must not cost the entries behind it their names
+        d = d.add_thread_name(synth::ThreadName::new(e, 0xdead_0001, None));
+    }
     for (tid, n) in &m.thread_names {
         let s = synth::DumpString::new(n, e);
         d = d.add_thread_name(synth::ThreadName::new(e, *tid, Some(&s))).add(s);
